@@ -452,7 +452,7 @@ class Peer(object):
                 self.sock.sendall(b'500 what\r\n')
 
 
-def model_smtp(case, model):
+def smtp_args(case):
     dev = case['dev']
 
     def oc(stage, default):
@@ -468,7 +468,11 @@ def model_smtp(case, model):
             'credentials=%d' % bool(case.get('credentials')), 'body8bit=%d' % bool(case.get('body8bit')),
             'encoder=%d' % bool(case.get('encoder')), 'connect=' + case.get('connect', 'ok'),
             'smtputf8=%d' % bool(case.get('smtputf8', False)), 'utf8addr=%d' % bool(case.get('utf8addr'))]
-    return model.ask('relay smtp ' + ' '.join(args))
+    return args
+
+
+def model_smtp(case, model):
+    return model.ask('relay smtp ' + ' '.join(smtp_args(case)))
 
 
 def run_smtp(case, model):
